@@ -156,6 +156,24 @@ pub fn kind_twin(env: &Env, a: &Address) -> Address {
     Address::try_from_val(env, &sc).unwrap()
 }
 
+/// The owner replaces the contract's code (with the executable the test host gives natively registered
+/// contracts, so the current source keeps running) and completes the migration. Configuration and state are
+/// not the migration's business: everything a history has built up must still be there afterwards.
+pub fn upgrade_and_migrate(env: &Env, contract: &Address) -> Result<(), String> {
+    env.mock_all_auths();
+    let h = BytesN::from_array(env, &empty_wasm_hash());
+    let r1 = env.try_invoke_contract::<(), soroban_sdk::Error>(contract, &soroban_sdk::Symbol::new(env, "upgrade"), (h,).into_val(env));
+    if !matches!(r1, Ok(Ok(()))) {
+        return Err(format!("owner's upgrade refused: {:?}", r1));
+    }
+    let r2 = env.try_invoke_contract::<(), soroban_sdk::Error>(contract, &soroban_sdk::Symbol::new(env, "migrate"), ((),).into_val(env));
+    if !matches!(r2, Ok(Ok(()))) {
+        return Err(format!("owner's migration refused: {:?}", r2));
+    }
+    env.set_auths(&[]);
+    Ok(())
+}
+
 pub fn sstr(env: &Env, s: &str) -> SString {
     SString::from_str(env, s)
 }
